@@ -46,12 +46,15 @@ impl Prop for C19 {
         let mode = gen::pick_mode(rng);
         let mut mix = FrameMix::swarm(rng);
         mix.keepalive = if rng.chance(1, 6) { 0 } else { rng.range(10, 80) };
-        mix.ver = 0;
+        // version packets too: a rejected VER is a result like any other and must not get lost
+        let verify = rng.chance(1, 3);
+        mix.ver = if verify { rng.range(5, 40) } else { 0 };
+        mix.ver_mostly_9 = rng.chance(1, 2);
         let target = match rng.below(12) {
             0 => rng.usize(3000, 14_000),
             _ => rng.usize(4, 500),
         };
-        let frames = gen::gen_frames_to_target(rng, mode, &mix, target, 100, stats);
+        let frames = gen::gen_frames_to_target(rng, mode, &mix, target, 1500, stats);
         let (inbound, ends) = gen::concat(&frames);
         let mut lc = LinkCfg::swarm(rng);
         lc.err_pm = 0;
@@ -76,7 +79,15 @@ impl Prop for C19 {
             vec![]
         };
         let fault_free = rng.chance(1, 10); // no cancellation at all: baseline of the workload
-        let cap_ops = if rng.chance(1, 8) { 200 } else { 30 };
+        // long sessions get proportionally long application scripts, so that cancellations also
+        // land deep into the session (after the receive buffer has wrapped)
+        let cap_ops = if frames.len() > 60 && rng.chance(3, 4) {
+            frames.len() * 2
+        } else if rng.chance(1, 8) {
+            200
+        } else {
+            30
+        };
         let n_ops = rng.usize(1, cap_ops);
         let mut ops = Vec::new();
         let max_polls = *rng.pick(&[1u32, 2, 3, 4, 8, 16]);
@@ -102,7 +113,7 @@ impl Prop for C19 {
         StreamScenario {
             imp: Imp::Tokio,
             mode,
-            verify_version: false,
+            verify_version: verify,
             explicit_gate: true,
             flushes,
             buffered,
